@@ -251,8 +251,8 @@ impl Prop for C20 {
 
     fn lanes(tier: Tier) -> Vec<Lane> {
         vec![Lane::new("main", tier.pick(1_600, 8_000))
-            .cap(tier.pick(90, 900))
-            .floor(tier.pick(150, 600))]
+            .cap(tier.pick(180, 1500))
+            .floor(tier.pick(100, 500))]
     }
 
     fn rule() -> &'static str {
